@@ -551,6 +551,8 @@ def b_bool(x=False):
 
 
 def b_round(x, nd=None):
+    if hasattr(x, "_pyvc_value"):
+        x = x._pyvc_value()
     if isinstance(x, SNum):
         return x.__round__(nd)
     return builtins.round(x, nd) if nd is not None else builtins.round(x)
